@@ -219,6 +219,15 @@ impl<'a> Client<'a> {
         if self.prop == "C09" && matches!(clause, "atomicity" | "owned-merge-restores" | "merge-history") {
             p = "C09";
         }
+        // ... and a store whose contents match no legal outcome right after an update operation
+        // has seen an update that neither succeeded completely nor left the track as it was:
+        // C11 reports these as well (C09 owns the map wording)
+        if self.prop == "C11"
+            && clause == "contents"
+            && matches!(op, "add" | "merge_owned" | "merge_external" | "merge_external_noblock" | "future_get" | "fetch_tracks")
+        {
+            p = "C11";
+        }
         if p == self.prop {
             if self.res.violation.is_none() {
                 self.res.violation = Some(Violation::new(p, clause, op, detail, msg));
